@@ -139,6 +139,82 @@ fn systematic(run: u64) -> Option<C14Case> {
     Some(C14Case { chip, board, steps, avoid: vec![] })
 }
 
+// ----- bounded-depth enumeration of API call sequences ("all API call sequences up to bounded depth") -----
+
+const ENUM_LETTERS: u64 = 26;
+
+fn enum_letter(l: u64) -> Step {
+    let done = Irq::Done { len: 12, cad: true };
+    match l {
+        0 => Step::of(Op::Init),
+        1 => Step::of(Op::Sleep { warm: true }),
+        2 => Step::of(Op::Sleep { warm: false }),
+        3 => Step::of(Op::PrepTx { ch: 1, dr: 2, power: 14, len: 12 }),
+        4 => Step::of(Op::Tx),
+        5 => Step::of(Op::PrepRx { mode: RxM::Single(20), ch: 2, dr: 1, implicit: false, len: 0 }),
+        6 => Step::of(Op::PrepRx { mode: RxM::Continuous, ch: 2, dr: 1, implicit: false, len: 0 }),
+        7 => Step::of(Op::PrepRx { mode: DUTY, ch: 2, dr: 1, implicit: false, len: 0 }),
+        8 => Step::of(Op::StartRx),
+        9 => Step::with(Op::CompleteRx { buf: 255 }, vec![done]),
+        10 => Step::with(Op::CompleteRx { buf: 255 }, vec![Irq::Timeout]),
+        11 => Step::with(Op::Rx { buf: 255 }, vec![done]),
+        12 => Step::of(Op::SwitchChannel { ch: 3 }),
+        13 => Step::of(Op::Listen { ch: 2 }),
+        14 => Step::of(Op::PrepCad { ch: 4, dr: 3 }),
+        15 => Step::with(Op::Cad, vec![done]),
+        16 => Step::of(Op::SetSyncWord { word: 0x3444 }),
+        17 => Step::of(Op::LwTx { ch: 1, dr: 2, power: 14, len: 23 }),
+        18 => Step::of(Op::LwSetupRx { ch: 2, dr: 1, continuous: false, ms: 10 }),
+        19 => Step::of(Op::LwSetupRx { ch: 2, dr: 1, continuous: true, ms: 10 }),
+        20 => Step::with(Op::LwRxSingle { buf: 256 }, vec![done]),
+        21 => Step::with(Op::LwRxSingle { buf: 256 }, vec![Irq::Timeout]),
+        22 => Step::with(Op::LwRxContinuous { buf: 256 }, vec![done]),
+        23 => Step::of(Op::LwLowPower),
+        24 => Step::with(Op::CompleteRx { buf: 255 }, vec![Irq::CrcError { len: 11 }]),
+        _ => Step::with(Op::CompleteRx { buf: 255 }, vec![Irq::Cancel { chip_completes: true }]),
+    }
+}
+
+fn enum_max_depth(tier: Tier) -> u32 {
+    match tier {
+        Tier::Quick => 3,
+        Tier::Thorough => 4,
+    }
+}
+
+/// number of enumerated cases of depth 1..=d (5 chip variants each)
+fn enum_total(d: u32) -> u64 {
+    (1..=d).map(|k| 5 * ENUM_LETTERS.pow(k)).sum()
+}
+
+/// The `index`-th enumerated case: every sequence of 1, then 2, ... calls over the 26-letter alphabet on every chip
+/// variant, undisturbed (faults and cancellations belong to the systematic and the seeded parts).
+fn enumerated(index: u64, max_depth: u32) -> Option<C14Case> {
+    let mut i = index;
+    let mut depth = 1;
+    loop {
+        if depth > max_depth {
+            return None;
+        }
+        let b = 5 * ENUM_LETTERS.pow(depth);
+        if i < b {
+            break;
+        }
+        i -= b;
+        depth += 1;
+    }
+    let chip = ALL_CHIPS[(i % 5) as usize];
+    let mut seq = i / 5;
+    let mut steps = Vec::new();
+    for _ in 0..depth {
+        steps.push(enum_letter(seq % ENUM_LETTERS));
+        seq /= ENUM_LETTERS;
+    }
+    let k = (index / 5) as usize;
+    let board = Board { tcxo: k % 3 == 1, dcdc: k % 2 == 1, rx_boost: k % 5 < 2, tx_boost: k % 7 < 3 };
+    Some(C14Case { chip, board, steps, avoid: vec![] })
+}
+
 fn gen_irqs(r: &mut Rng, op: &Op, cancel_pct: u64) -> Vec<Irq> {
     if !op.waits() {
         return vec![];
@@ -345,14 +421,33 @@ impl Property for C14 {
         crate::components_phy()
     }
     fn budget(&self, tier: Tier) -> u64 {
-        let sys = systematic_table().len() as u64 * 5;
+        let sys = systematic_table().len() as u64 * 5 + enum_total(enum_max_depth(tier));
         match tier {
             Tier::Quick => sys + 3_000_000,
             Tier::Thorough => sys + 20_000_000,
         }
     }
-    fn generate(&self, seed: u64, run: u64, _tier: Tier, avoid: &BTreeSet<String>) -> C14Case {
-        let mut c = systematic(run).unwrap_or_else(|| random_case(seed, run));
+    fn coverage_extra(&self, tier: Tier, runs: u64) -> serde_json::Value {
+        let sys = systematic_table().len() as u64 * 5;
+        let n = runs.saturating_sub(sys).min(enum_total(enum_max_depth(tier)));
+        let mut d = 0;
+        while d < 8 && enum_total(d + 1) <= n {
+            d += 1;
+        }
+        serde_json::json!({ "bounded_depth_enumeration": {
+            "alphabet": "26 API calls with canonical arguments: init, sleep warm / cold, prepare_for_tx, tx, prepare_for_rx single / continuous / duty-cycle, start_rx, complete_rx ending in RxDone / timeout / CRC error / cancellation, rx, rx_switch_channel, listen, prepare_for_cad, cad, set_lora_sync_word, adapter tx / setup_rx single / setup_rx continuous / rx_single done / rx_single timeout / rx_continuous / low_power",
+            "configurations": "5 chip variants (Sx1261, Sx1262, Stm32wl, Sx1272, Sx1276), board options rotating",
+            "cases_executed": n,
+            "complete_to_depth": d,
+            "max_depth_of_tier": enum_max_depth(tier),
+        }, "single_fault_sweep_cases": sys.min(runs) })
+    }
+    fn generate(&self, seed: u64, run: u64, tier: Tier, avoid: &BTreeSet<String>) -> C14Case {
+        let sys = systematic_table().len() as u64 * 5;
+        let mut c = match systematic(run) {
+            Some(c) => c,
+            None => enumerated(run - sys, enum_max_depth(tier)).unwrap_or_else(|| random_case(seed, run)),
+        };
         c.avoid = avoid.iter().cloned().collect();
         c
     }
